@@ -53,7 +53,7 @@ pub fn worker_case(case: &str) -> String {
             let mut doc = Document::with_version("1.5");
             let sid = doc.add_object(Object::Stream(Stream::new(Dictionary::new(), cmap)));
             let mut font = Dictionary::new(); font.set("Type", Object::Name(b"Font".to_vec())); font.set("Encoding", Object::Name(b"Identity-H".to_vec())); font.set("ToUnicode", Object::Reference(sid));
-            match font.get_font_encoding(&doc) { Ok(enc) => match Document::decode_text(&enc, &text) { Ok(s) => format!("ok {}", s.chars().count()), Err(_) => "err".into() }, Err(_) => "err".into() }
+            match font.get_font_encoding(&doc) { Ok(enc) => match Document::decode_text(&enc, &text) { Ok(s) => format!("ok {}", s.chars().count()), Err(e) => format!("err decode {:?}", e).chars().take(80).collect() }, Err(e) => format!("err font {:?}", e).chars().take(80).collect() }
         }
         _ => "bad-entry".into(),
     }
@@ -154,16 +154,26 @@ fn adversarial(r: &mut Rng, i: u64) -> (String, String) {
             ("text-string".into(), format!("T {}", hex_tok(&b))) }
         10 => { // CMap soups
             const TOK: &[&str] = &["beginbfchar", "endbfchar", "beginbfrange", "endbfrange", "begincodespacerange", "endcodespacerange", "<00>", "<FFFF>", "<0000>", "<D800>", "<DC00>", "<00660069>", "[", "]", "<FFFFFFFF>", "<01>", "1", "2", "100", "begincmap", "endcmap", "/CMapName", "def", "<", ">", "<0>", "<FFFE>", "<0001> <FFFF> <FFFF>", "<00> <FF> [<0041>]"];
-            let mut s = String::from("/CIDInit /ProcSet findresource begin 12 dict begin begincmap 1 begincodespacerange <00> <FFFF> endcodespacerange ");
+            let mut s = String::from("/CIDInit /ProcSet findresource begin\n12 dict begin\nbegincmap\n/CMapType 2 def\n1 begincodespacerange\n<0000> <FFFF>\nendcodespacerange\n");
+            if r.chance(1, 2) {
+                // syntactically complete sections with arbitrary (also nonsensical) hexadecimal operands
+                const HX: &[&str] = &["<00>", "<01>", "<41>", "<FF>", "<0000>", "<0001>", "<00FF>", "<FFFF>", "<D800>", "<DC00>", "<DBFFDFFF>", "<00660069>", "<FFFE>", "<FEFF0041>", "<FFFFFFFF>", "<0041FFFF>", "<000000>"];
+                for _ in 0..1 + r.usize(3) {
+                    let n = 1 + r.usize(3);
+                    if r.chance(1, 2) { s.push_str(&format!("{} beginbfchar\n", n)); for _ in 0..n { s.push_str(&format!("{} {}\n", r.pick(HX), r.pick(HX))); } s.push_str("endbfchar\n"); }
+                    else { s.push_str(&format!("{} beginbfrange\n", n)); for _ in 0..n { if r.chance(1, 3) { s.push_str(&format!("{} {} [{} {}]\n", r.pick(HX), r.pick(HX), r.pick(HX), r.pick(HX))); } else { s.push_str(&format!("{} {} {}\n", r.pick(HX), r.pick(HX), r.pick(HX))); } } s.push_str("endbfrange\n"); }
+                }
+            } else {
             for _ in 0..r.usize(14) { let t: &str = *r.pick(TOK); s.push_str(t); s.push(' '); }
-            s.push_str("endcmap");
+            }
+            s.push_str("\nendcmap\nCMapName currentdict /CMap defineresource pop\nend\nend\n");
             if r.chance(1, 2) {
                 // a WELL-FORMED small CMap (codes of 1..4 bytes) and a text that mixes mapped codes with long unmapped runs
-                let mut m = String::from("/CIDInit /ProcSet findresource begin 12 dict begin begincmap 1 begincodespacerange <00> <FFFFFFFF> endcodespacerange ");
+                let mut m = String::from("/CIDInit /ProcSet findresource begin\n12 dict begin\nbegincmap\n/CMapType 2 def\n1 begincodespacerange\n<0000> <FFFF>\nendcodespacerange\n");
                 let n = 1 + r.usize(5); let mut codes: Vec<Vec<u8>> = vec![];
-                m.push_str(&format!("{} beginbfchar ", n));
-                for _ in 0..n { let len = 1 + r.usize(4); let code = r.bytes(len); m.push_str(&format!("<{}> <{:04X}> ", hex(&code), 0x41 + r.below(500))); codes.push(code); }
-                m.push_str("endbfchar endcmap");
+                m.push_str(&format!("{} beginbfchar\n", n));
+                for _ in 0..n { let len = 1 + r.usize(4); let code = r.bytes(len); m.push_str(&format!("<{}> <{:04X}>\n", hex(&code), 0x41 + r.below(500))); codes.push(code); }
+                m.push_str("endbfchar\nendcmap\nCMapName currentdict /CMap defineresource pop\nend\nend\n");
                 let mut text = vec![];
                 for _ in 0..r.usize(8) { if r.chance(1, 2) { let cd: &Vec<u8> = r.pick(&codes[..]); text.extend_from_slice(cd); } else { let k = 1 + r.usize(12); text.extend(r.bytes(k)); } }
                 return ("cmap-text".into(), format!("M {} {}", hex_tok(m.as_bytes()), hex_tok(&text)));
